@@ -254,6 +254,28 @@ type fataler interface {
 
 // ---------- exact oracles on a prefix of a canonical encoding ----------
 
+// expectExtract is the reference outcome of ExtractHeaderAndPayload(E[:c]):
+// error, or header == E[:hdrEnd] and payload prefix == E[restFrom:c].
+func expectExtract(r *ref, c int) (wantErr bool, hdrEnd, restFrom int) {
+	if c == 0 {
+		return true, 0, 0
+	}
+	for _, f := range r.top {
+		switch {
+		case c == f.start: // prefix ends on a field boundary: a shorter well-formed message
+			return false, f.start, c
+		case f.num == 4:
+			if c >= f.vfrom {
+				return false, f.start, f.vfrom
+			}
+			return true, 0, 0 // inside payload tag / length
+		case c < f.end:
+			return true, 0, 0
+		}
+	}
+	return false, c, c // whole message, no payload field
+}
+
 // checkExtract: iobject.ExtractHeaderAndPayload(E[:c]).
 func checkExtract(t fataler, r *ref, c int) (outcome string) {
 	p := r.e[:c]
@@ -261,32 +283,7 @@ func checkExtract(t fataler, r *ref, c int) (outcome string) {
 	var rest []byte
 	var err error
 	noPanic(t, "ExtractHeaderAndPayload", p, func() { hdr, rest, err = iobject.ExtractHeaderAndPayload(p) })
-	wantErr, wantHdrEnd, wantRestFrom := false, 0, c
-	if c == 0 {
-		wantErr = true
-	}
-	decided := c == 0
-	for _, f := range r.top {
-		if decided {
-			break
-		}
-		switch {
-		case c == f.start:
-			wantHdrEnd, decided = f.start, true
-		case f.num == 4:
-			if c >= f.vfrom {
-				wantHdrEnd, wantRestFrom = f.start, f.vfrom
-			} else {
-				wantErr = true
-			}
-			decided = true
-		case c < f.end:
-			wantErr, decided = true, true
-		}
-	}
-	if !decided {
-		wantHdrEnd = c // whole message without payload field
-	}
+	wantErr, wantHdrEnd, wantRestFrom := expectExtract(r, c)
 	if wantErr {
 		if err == nil {
 			t.Fatalf("ExtractHeaderAndPayload(E[:%d]) succeeded, cut is inside a field (len(E)=%d, layout %v)", c, len(r.e), r.top)
@@ -567,29 +564,29 @@ func checkReadHeaderPrefix(t fataler, rec *ev.Recorder, r *ref, step int) {
 	var rest []byte
 	var err error
 	noPanic(t, "ReadHeaderPrefix", r.e, func() { hdr, rest, err = iobject.ReadHeaderPrefix(&chunkReader{b: r.e, step: step}) })
-	needed := r.npEnd
-	if r.hasPld {
-		needed = r.pldFrom
-	}
-	if needed > readPrefixWindow {
-		// The non-payload part (ID + signature + header <= MaxHeaderLen + payload tag/len)
-		// does not fit the MaxHeaderLen window the function reads: it cannot succeed.
+	wantErr, hdrEnd, restFrom := expectExtract(r, c)
+	if wantErr {
+		// Only possible when the non-payload part (ID + signature + header <= MaxHeaderLen)
+		// plus the payload tag/len does not fit the MaxHeaderLen window the function reads.
+		if c == len(r.e) {
+			t.Fatalf("harness: reference expects an error for a complete short encoding")
+		}
 		rec.Label("readprefix:nonpayload-exceeds-window")
 		if err == nil {
-			t.Fatalf("ReadHeaderPrefix succeeded although the header ends at %d > window %d", needed, readPrefixWindow)
+			t.Fatalf("ReadHeaderPrefix succeeded although the window of %d bytes ends inside a field (non-payload part ends at %d)", readPrefixWindow, r.npEnd)
 		}
 		return
 	}
 	if err != nil {
-		t.Fatalf("ReadHeaderPrefix failed: %v (non-payload part ends at %d, len(E)=%d)", err, needed, len(r.e))
+		t.Fatalf("ReadHeaderPrefix failed: %v (non-payload part ends at %d, len(E)=%d)", err, r.npEnd, len(r.e))
 	}
-	if !bytes.Equal(hdr.Marshal(), r.e[:r.npEnd]) {
+	if !bytes.Equal(hdr.Marshal(), r.e[:hdrEnd]) {
 		t.Fatalf("ReadHeaderPrefix: header differs from fully decoded object without payload")
 	}
-	wantRest := []byte{}
-	if r.hasPld {
-		wantRest = r.e[r.pldFrom:c]
+	if hdrEnd != r.npEnd {
+		t.Fatalf("harness: ReadHeaderPrefix window ends between non-payload fields")
 	}
+	wantRest := r.e[restFrom:c]
 	if !bytes.Equal(rest, wantRest) {
 		t.Fatalf("ReadHeaderPrefix: payload prefix %d bytes, want %d", len(rest), len(wantRest))
 	}
